@@ -43,6 +43,7 @@ func (d *bareDrv) keys() []byte {
 }
 
 func (d *bareDrv) emit(cmd string, f func() string) {
+	d.tr.begin(cmd)
 	out := safely(f)
 	d.tr.emit(cmd, out)
 	if out == "PANIC" {
@@ -582,7 +583,14 @@ func runCodecMode(seed int64, n int, sub string, tr *transcript) {
 		out := safely(func() string { enc = encNum(ty, v); return hexLit(enc) })
 		tr.emit(fmt.Sprintf("fn enc %s %s", lt, bitsLit(v, w)), out)
 		if out != "PANIC" {
+			keep := append([]byte{}, enc...)
 			tr.emit(fmt.Sprintf("fn dec %s %s", lt, hexLit(enc)), safely(func() string { return decNum(ty, enc) }))
+			// decoding reads its argument (the trees hand Restore their own key storage); the same bytes decode the
+			// same way a second time
+			if !bytes.Equal(enc, keep) {
+				tr.emit(fmt.Sprintf("assert 0 decoding-leaves-the-encoding-unchanged-%s", ty), fmt.Sprintf("before=%x,after=%x", keep, enc))
+				copy(enc, keep)
+			}
 			if len(enc) != w/8 {
 				tr.emit(fmt.Sprintf("assert 0 fixed-length-%s", ty), fmt.Sprintf("len=%d", len(enc)))
 			}
